@@ -241,6 +241,7 @@ Proof.
   - eexists. split; [exact Et|]. repeat split; assumption.
   - exists (str_xref d (Save.blen pre0)), (str_trailer d (Save.blen pre0)), [].
     split; [reflexivity|]. split; [reflexivity|]. split; [apply swap_remove_absent_get; exact Hprev|].
+    split; [rewrite str_trailer_get by (try exact Hd; reflexivity); rewrite Hstm; reflexivity|].
     intro rest. split; [apply sf_section; assumption|]. rewrite Hprev. apply clt_nil. intros p E. discriminate E.
   - rewrite str_trailer_get by (try exact Hd; reflexivity). rewrite Hstm. reflexivity.
   - unfold dict_has. change Loader.K_Encrypt with Save.K_Encrypt. rewrite str_trailer_get by (try exact Hd; reflexivity).
@@ -318,6 +319,7 @@ Proof.
   - rewrite rev_start_len. unfold pre0, Loader.blen. rewrite !app_length. lia.
   - intro rest. rewrite <- Esuf. apply sf_section; assumption.
   - rewrite str_trailer_get by (try exact Hr; reflexivity). change Xref.K_Prev with Save.K_Prev. rewrite Hp. reflexivity.
+  - rewrite str_trailer_get by (try exact Hr; reflexivity). rewrite Hstm. reflexivity.
   - rewrite dict_get_swap_remove_other by (try exact Hwf; discriminate).
     rewrite str_trailer_get by (try exact Hr; reflexivity). rewrite Hstm. reflexivity.
   - unfold dict_has. rewrite dict_get_swap_remove_other by (try exact Hwf; discriminate).
